@@ -15,7 +15,7 @@ R6 without a handler every granted retry sleeps
 from __future__ import annotations
 
 from .. import gen as G
-from ..facts import V, analyze, delivered_stop_reason, entry_name
+from ..facts import V, analyze, delivered_stop_reason, entry_name, feq
 from . import common
 
 ID = "C16"
@@ -58,11 +58,13 @@ def oracle(scn, trace):
             granted_visible = inf.n_retry or inf.handlers or inf.sleeps or inf.before
             if not granted_visible:
                 continue
-            delay = inf.expected_delay
+            # "the computed delay" = the one delay the library computed for this retry (whether it is the right
+            # number is C05's business): the first announcement among retry event / handler / before_sleep / sleeper
+            delay = inf.applied
             aborted_early = inf.first_true is not None  # abort poll between grant and sleep: C13's business
 
             def same(x):
-                return x == delay or str(x) == str(delay)
+                return feq(x, delay)
 
             # R1
             if w_handler is None:
